@@ -1214,3 +1214,7 @@ mod tests {
         }
     }
 }
+
+#[cfg(kani)]
+#[path = "/verif/kani/parquet/encodings/rle.rs"]
+mod verif_kani;
